@@ -8,13 +8,14 @@
      HTTP/1 message parser [parse_spec] (the specification side: what a
      reader of the snapshot must be able to recover).
 
-   The model follows the code WITH the repairs proposed in fixes/C15-*.diff
-   (terminating CRLF after chunked trailers, http.NoBody kept by
-   SnapshotRequest, marbl.Modifier honours skip-logging, nothing decoded from
-   an empty body section); the behaviour of the unrepaired code is kept as
-   [snapshot_legacy] / [run_logger_legacy] so that the defects are theorems
-   ([..._legacy_refuted]) too.  One defect is not repaired and therefore
-   modelled as it is: marbl wraps http.NoBody (C15-K3).
+   The model follows the code WITH the repairs fixes/C15-2 (http.NoBody kept
+   by SnapshotRequest), C15-3 (marbl.Modifier honours skip-logging) and
+   C15-4 (nothing decoded from an empty body); the behaviour before C15-2 /
+   C15-3 is kept as [snapshot_legacy] / [run_logger_legacy] so that those
+   defects are theorems ([..._legacy_refuted]) too.  Two defects are not
+   repaired and therefore modelled as they are: a chunked snapshot with a
+   non-nil Trailer lacks its final CRLF (C15-K4), marbl wraps http.NoBody
+   (C15-K3).
 
    bytes = list ascii.  Offsets are Z as in the Go code (int64). *)
 
@@ -335,18 +336,17 @@ Definition head_bytes (m : msg) : bytes :=
   ++ hlines (write_subset (m_isreq m) (m_hdrs m))
   ++ crlf.
 
-Definition trailer_bytes (legacy : bool) (m : msg) : bytes :=
-  if legacy then
-    match m_trailers m with
-    | Some t => hlines t
-    | None => if m_te m then crlf else []
-    end
-  else
-    (match m_trailers m with Some t => hlines t | None => [] end)
-    ++ (if m_te m then crlf else []).
+(* The code writes the blank line that ends a chunked body only when Trailer
+   is nil; with a non-nil Trailer the snapshot stops after the trailer fields
+   (known finding C15-K4: the existing tests pin mv.Reader() to these bytes). *)
+Definition trailer_bytes (m : msg) : bytes :=
+  match m_trailers m with
+  | Some t => hlines t
+  | None => if m_te m then crlf else []
+  end.
 
 (* Snapshot{Request,Response}: view and the message left behind.
-   [legacy = true] is the code before fixes C15-1 and C15-3. *)
+   [legacy = true] is the code before fix C15-2 (http.NoBody replaced). *)
 Definition snapshot_gen (legacy : bool) (o : opts) (m : msg) : view * msg :=
   let head := head_bytes m in
   let off := blen head in
@@ -356,7 +356,7 @@ Definition snapshot_gen (legacy : bool) (o : opts) (m : msg) : view * msg :=
   else
     let data := m_body m in                       (* ioutil.ReadAll(Body) *)
     let bodysec := if m_te m then chunk_body data else data in
-    let message := head ++ bodysec ++ trailer_bytes legacy m in
+    let message := head ++ bodysec ++ trailer_bytes m in
     (mkView message off (off + blen bodysec) (m_te m) true,
      set_body m (if legacy then false else m_nobody m) data).
 
@@ -549,10 +549,17 @@ Record obs := mkObs {
   ob_err : bool                        (* the logger returned an error / panicked *)
 }.
 
+(* [s] ends with [suf] *)
+Definition ends_with (suf s : bytes) : bool :=
+  bytes_eqb (skipn (List.length s - List.length suf) s) suf
+  && Nat.leb (List.length suf) (List.length s).
+
+(* the three sections concatenate to the message and the header section is
+   a complete head: it ends with the blank line *)
 Definition sections_ok (o : obs) : bool :=
   match ob_sections o with
   | None => true
-  | Some (h, b, t, full) => bytes_eqb (h ++ b ++ t) full
+  | Some (h, b, t, full) => bytes_eqb (h ++ b ++ t) full && ends_with (crlf ++ crlf) h
   end.
 
 Definition reparse_ok (m : msg) (o : obs) : bool :=
